@@ -327,6 +327,10 @@ def slot_state(rng, addr):
     if rng.random() < 0.5:
         r[12] = rng.choice(W16)
     r[1] = rng.choice([0x00, 0x01, 0xFF, 0xFE, 0x40, 0x41, 0x10, 0x11, 0x02, 0x03, 0x80, 0x04, rng.randrange(256)])
+    if rng.random() < 0.25:
+        # around the frame boundary / interrupt-acceptance window (HALT and LD A,I/R look at it), interrupts enabled
+        r[25] = 69888 * rng.choice([1, 2, 7]) + rng.randint(-14, 40)
+        r[26] = 1
     return r
 
 def run_slots(shard, spec):
